@@ -932,6 +932,22 @@ class Engine:
 
     # ------------------------------------------------------------------ calls
     def eval_call(self, E, x):
+        if x.n.get('f') is None and x.n.get('fe') is not None and not getattr(self.hooks, 'keep_indirect', False):
+            # a call through a pointer whose value is one known function is a call of that function
+            fv = E.temps.get(x.n['fe'], TOP)
+            if fv is TOP:
+                try:
+                    fv = self.value_of(E, x.fn.x(x.n['fe']).strip())
+                except Exception:
+                    fv = TOP
+            if fv is not TOP and len(fv) == 1:
+                (a,) = fv
+                if isinstance(a, tuple) and a[0] == 'fn' and (self.prog.resolve(a[1], x.fn.unit) is not None or hasattr(self.hooks, 'prim_' + a[1])):
+                    x.n['f'] = 'F:' + a[1]
+                    try:
+                        return self.eval_call(E, x)
+                    finally:
+                        x.n['f'] = None
         args = [self.value_of(E, a) for a in x.args]
         res = self.hooks.on_call(E, x, args)
         if res == 'noreturn':
